@@ -22,8 +22,10 @@ if E2E_TRUSTED not in pipe_common.TRUSTED_BASE:
 PROFILES = {
     # peers, flaps, reup, metrics, query_ops
     "C01": dict(peers=pipegen.DISTINCT_PEERS, reup=False, metrics=False, query_ops=True, reload=True),
-    "C02": dict(peers=None, reup=False, metrics=False, query_ops=True, reload=True),
-    "C03": dict(peers=pipegen.DISTINCT_PEERS[:4], reup=True, metrics=False, query_ops=True, reload=True, reload_pc=30),
+    # `ingress` = % of the cases with an ingress story: a second ingress unit from the start, a reload that takes bmp-in out of the
+    # configuration (J 0) and, often, a later one that puts it back (J 1), the router returning to the new unit; JL reads the router lists
+    "C02": dict(peers=None, reup=False, metrics=False, query_ops=True, reload=True, ingress=20),
+    "C03": dict(peers=pipegen.DISTINCT_PEERS[:4], reup=True, metrics=False, query_ops=True, reload=True, reload_pc=30, ingress=25),
     "C15": dict(peers=[0, 3, 5, 6, 8], reup=True, metrics=True, query_ops=False, reload=True),
     # C13: the configuration is reloaded under traffic; sessions and RIB contents must survive, later routers must be served
     # (variants = reloads that change the bmp unit's router_id_template; V k reads which template labels a router's series)
@@ -31,7 +33,7 @@ PROFILES = {
     # added / removed / re-typed (Y) before a reload; P asks the second unit
     # ... and, in 35 % of the cases, a shorthand RIB (K n: `filter_names` with n+1 entries = a physical RIB and n generated vRIBs) whose
     # vRIB endpoints are asked (N i af p) at start-up and after every reload, also reloads that change the number of vRIBs
-    "C13": dict(peers=pipegen.DISTINCT_PEERS, reup=False, metrics=False, query_ops=True, reload=True, reload_pc=100, variants=True, scripts=40, vribs=35),
+    "C13": dict(peers=pipegen.DISTINCT_PEERS, reup=False, metrics=False, query_ops=True, reload=True, reload_pc=100, variants=True, scripts=40, vribs=35, ingress=25),
     # C10: which script a unit's rib-in-pre filter comes from: every case has a script story (F / W / Y / P around reloads)
     "C10": dict(peers=pipegen.DISTINCT_PEERS, reup=False, metrics=False, query_ops=True, reload=False, scripts=100),
     # C14: routers come back, also after the listener was re-bound; G k = how many ingress ids router k has been given
@@ -153,6 +155,82 @@ VRIB_CORPUS = [
 CORPUS["C13"] = CORPUS["C13"] + VRIB_CORPUS
 
 
+# Ingress units removed and added by reloads: J 0 / J 1 = [units.bmp-in] taken out of / put back into the configuration (effective with
+# the next H / L); a case with J / JL has a second ingress unit bmp-in2 (routers 4..7) that every RIB unit sources too; JL u = the router
+# list of unit u. A router of a bmp-in unit that a reload started is a new source (k8 = address 0 at the second unit, ...).
+INGRESS_CORPUS = [
+    # seeded C03-b1 (read_from_router's 'gate terminated' exit returned instead of falling into the clean-up): the reload that takes the
+    # unit out must withdraw the routes of every session of every router of it - and nothing of the other ingress unit
+    "C 0;C 1;C 4;I 0;I 1;I 4;U 0 0 0;U 0 5 0;U 1 0 0;U 4 0 0;R 0 0 0 1 1,2 0 -;R 0 5 0 2 1 0 -;R 1 0 0 3 1 0 -;R 4 0 0 4 1,3 0 -;Q 0 1;J 0;H;Q 0 1;Q 0 2;Q 0 3;JL 0;JL 1",
+    # fixed (C13-removal-unsubscribes-first, 29de9ab): ... also when nobody else is connected and after earlier reloads
+    "C 0;I 0;U 0 0 0;R 0 0 0 1 1 0 -;J 0;H;Q 0 1",
+    "C 0;I 0;U 0 0 0;R 0 0 0 1 1 0 -;H;L;J 0;H;Q 0 1;JL 0",
+    # the unit comes back (same port / another port): a new unit with an ingress id of its own; the router that returns is a new source,
+    # its old routes stay withdrawn, what it announces now is active (no id is reused, so known finding C03-1 does not apply) ...
+    "C 0;C 4;I 0;I 4;U 0 0 0;U 4 0 0;R 0 0 0 1 1,2 0 -;R 4 0 0 2 1 0 -;J 0;H;JL 0;Q 0 1;J 1;H;JL 0;C 0;I 0;U 0 0 0;G 0;R 0 0 0 3 1 0 -;Q 0 1;Q 0 2;JL 0;JL 1",
+    "C 0;I 0;U 0 0 0;R 0 0 0 1 1 0 -;J 0;L;J 1;L;JL 0;C 0;I 0;U 0 0 0;R 0 0 0 2 1 0 -;Q 0 1;G 0",
+    # removed, added, removed again, with traffic on the other unit in between; an edit that is undone before the reload changes nothing
+    "C 0;C 4;I 0;I 4;U 0 0 0;U 4 3 0;R 0 0 0 1 1 0 -;R 4 3 0 2 1 0 -;J 0;J 1;H;JL 0;Q 0 1;J 0;H;R 4 3 0 3 2 0 -;Q 0 1;Q 0 2;J 1;H;C 0;I 0;U 0 0 0;R 0 0 0 4 2 0 -;J 0;H;Q 0 2;X 4;Q 0 2;JL 1",
+    # a second RIB unit that the reloads keep sees the withdrawals too; one that the removing reload starts never saw the routes
+    "C 0;I 0;U 0 0 0;Y 1;H;R 0 0 0 1 1,2 0 -;J 0;H;Q 0 1;P 0 1;J 1;Y 0;H;Y 1;J 0;H;P 0 1;Q 0 2",
+    # with a script and a changed template: the unit that comes back is a new unit in every respect
+    "F 1;C 0;I 0;U 0 0 0;R 0 0 0 1 1,2 0 -;J 0;W 2;Y 1;H 1;Q 0 1;Q 0 2;P 0 2;J 1;H 2;C 0;I 0;V 0;U 0 0 0;R 0 0 0 1 1,2,3 0 -;Q 0 2;P 0 2;P 0 1;P 0 3",
+]
+for _p in ("C02", "C03", "C13"):
+    CORPUS[_p] = CORPUS[_p] + INGRESS_CORPUS
+CORPUS["C03"] = CORPUS["C03"] + [
+    # ... while within the new unit a router that returns IS given its id again (find_existing_bmp_router) - and C03-1 applies again
+    "J 0;H;JL 0;C 0;J 1;L;JL 0;C 0;I 0;U 0 0 0;R 0 0 0 1 1 0 -;X 0;C 0;I 0;U 0 0 0;G 0;R 0 0 0 2 1,2 0 -;Q 0 1;Q 0 2",
+]
+
+
+_ROUTER_OPS = ("C", "I", "T", "S", "U", "D", "R", "E", "B", "X", "M", "V", "G")
+
+
+def ingress_story(rng, ops, peers):
+    """Weaves the removal (and, often, the return) of the bmp-in unit into a case: the case gets a second ingress unit (often its second
+    router connects there), bmp-in is taken out by a reload in the second half of the case - what its routers send afterwards reaches
+    nobody - and in 60 % of the cases a later reload puts it back and router 0 returns to the new unit and announces again. The router
+    lists are read after the reloads, prefixes are asked right after the removal and at the end."""
+    out = list(ops)
+    if rng.chance(65):
+        res = []
+        for o in out:
+            w = o.split()
+            if w[0] in _ROUTER_OPS and len(w) > 1 and w[1] == "1":
+                w[1] = "4"
+            res.append(" ".join(w))
+        out = res
+    n = len(out)
+    at = rng.range(n // 2, n)
+    block = ["J 0", rng.choice(["H", "H", "L"])]
+    if rng.chance(50):
+        block.append("JL 0")
+    if rng.chance(25):
+        block.append("JL 1")
+    for _ in range(rng.range(0, 2)):
+        block.append(f"Q 0 {rng.below(6) + 1}")
+    out[at:at] = block
+    if rng.chance(60):
+        at2 = rng.range(at + len(block), len(out))
+        p = rng.choice(peers)
+        back = ["J 1", rng.choice(["H", "H", "L"])]
+        if rng.chance(40):
+            back.append("JL 0")
+        back += ["C 0", "I 0", f"U 0 {p} {rng.below(2)}", f"R 0 {p} 0 {rng.below(5)} {pipegen.plist(rng, 1, 3)} 0 -"]
+        if rng.chance(40):
+            back.append("G 0")
+        if rng.chance(20):
+            # ... and is taken out once more
+            back += ["J 0", rng.choice(["H", "L"])]
+        out[at2:at2] = back
+    for _ in range(rng.range(1, 3)):
+        out.append(f"Q 0 {rng.below(6) + 1}")
+    if rng.chance(30):
+        out.append(f"JL {rng.below(2)}")
+    return out
+
+
 def vrib_story(rng, ops):
     """Makes `rib` a shorthand RIB with generated vRIBs: K n among the leading ops, sometimes another K before a reload (vRIBs are
     added / removed), at least one reload, and the vRIB endpoints asked at start-up, after every reload and at the end. The prefixes
@@ -255,6 +333,8 @@ def e2e_engine(prop):
                 out = script_story(rng, out)
             if pr.get("vribs") and rng.chance(pr["vribs"]):
                 out = vrib_story(rng, out)
+            elif pr.get("ingress") and rng.chance(pr["ingress"]):
+                out = ingress_story(rng, out, peers)
             if pr.get("variants") or pr.get("ids"):
                 # read the label / the id count of every router after each of its Initiation messages, after reloads and at the end
                 tok = "V" if pr.get("variants") else "G"
@@ -282,6 +362,8 @@ def e2e_engine(prop):
         if any(x.startswith("v:") and x != "v:-" for x in t):
             return True
         if any(x.startswith("n:") and not x.endswith(",0") for x in t):
+            return True
+        if any(x.startswith("r:") for x in t):
             return True
         if any(x.startswith("t:") and x not in ("t:0", "t:-") for x in t):
             return True
@@ -339,6 +421,35 @@ def e2e_engine(prop):
             ks.append("vrib-count-edited")
         if "v:STALL" in t:
             ks.append("vrib-never-answers")
+        if "J" in names or "JL" in names:
+            ks.append("second-ingress-unit")
+            want, run, removed, conn, seen_w = True, True, False, set(), False
+            for o, x in (zip(ops, t) if len(t) == len(ops) else []):
+                w = o.split()
+                if not w:
+                    continue
+                if w[0] == "C" and (int(w[1]) >= 4 or run):
+                    conn.add(w[1])
+                if w[0] == "X":
+                    conn.discard(w[1])
+                if w[0] == "J":
+                    want = w[1] != "0"
+                if w[0] in ("H", "L"):
+                    if run and not want:
+                        ks.append("ingress-unit-removed")
+                        if any(int(k) < 4 for k in conn):
+                            ks.append("ingress-unit-removed-with-routers-connected")
+                        conn = set(k for k in conn if int(k) >= 4)
+                        removed = True
+                    if not run and want:
+                        ks.append("ingress-unit-added-back")
+                    run = want
+                if removed and x.startswith("q:") and "=W" in x:
+                    ks.append("query-shows-withdrawn-after-removal")
+                if x == "r:-":
+                    ks.append("router-list-gone")
+            if any(x.startswith("q:") and any(e.startswith(("k8p", "k9p", "k16p", "k17p")) for e in x[2:].split(",")) for x in t):
+                ks.append("routes-of-a-router-of-the-new-unit")
         # the same prefix asked of both units, one after the other, with different answers: a filter (or the time of spawn) shows
         for a, b, oa, ob in (zip(t, t[1:], ops, ops[1:]) if len(t) == len(ops) else []):
             if a.startswith("q:") and b.startswith("p:") and b != "p:-" and oa[1:] == ob[1:] and a[2:] != b[2:]:
